@@ -27,18 +27,96 @@ def reroot_variants(seed, n):
     return out
 
 
+def transfer_oracle(c, b):
+    """materialize the table of case c (new table holding the exported frame) and transfer the column
+    references of the origin to it: same visible table, and every reference of the origin pipeline that is
+    valid on the origin's final table addresses the same data and the same name afterwards.
+    Returns None (not applicable), [] (ok) or a list of failure texts."""
+    import warnings
+
+    import pydiverse.transform as pdt
+    from pipes import Instantiator
+    from pydiverse.transform import extended as X
+
+    def rows(df):
+        return sorted(map(repr, df.rows()))
+    with warnings.catch_warnings():
+        warnings.simplefilter("ignore")
+        out = Instantiator(c, b, {}).run()
+        if out.exc is not None:
+            return None
+        tbl = out.table
+        try:
+            if tbl._cache.partition_by:
+                tbl = tbl >> X.ungroup()
+            ref = tbl >> X.export(pdt.Polars())
+        except BaseException:  # noqa: BLE001
+            return None
+        fails = []
+        try:
+            new = pdt.Table(ref, name="mat")
+            m = pdt.transfer_col_references(new, tbl)
+            got = m >> X.export(pdt.Polars())
+        except BaseException as ex:  # noqa: BLE001
+            return [f"transfer_col_references / export raised {type(ex).__name__}: {str(ex)[:150]}"]
+        if got.columns != ref.columns or rows(got) != rows(ref):
+            fails.append(f"transfer_col_references changed the visible table: {got.columns} vs {ref.columns}")
+        if [x.name for x in m] != [x.name for x in tbl]:
+            fails.append("transfer_col_references changed the column list")
+        # every reference of the origin pipeline (all intermediate tables) that is visible in the final table
+        seen = set()
+        for key, pt in out.points.items():
+            for col in pt:
+                if col._uuid in seen or col._uuid not in tbl._cache.uuid_to_name:
+                    continue
+                seen.add(col._uuid)
+                try:
+                    want = tbl >> X.mutate(zz9=col) >> X.export(pdt.Polars())
+                except BaseException:  # noqa: BLE001
+                    continue
+                try:
+                    have = m >> X.mutate(zz9=col) >> X.export(pdt.Polars())
+                    nm = (m[col].name, tbl[col].name)
+                except BaseException as ex:  # noqa: BLE001
+                    fails.append(f"the origin's reference to `{tbl._cache.uuid_to_name[col._uuid]}` ({key}) does not work "
+                                 f"after transfer_col_references: {type(ex).__name__}: {str(ex)[:120]}")
+                    continue
+                if have.columns != want.columns or rows(have) != rows(want):
+                    fails.append(f"the origin's reference to `{tbl._cache.uuid_to_name[col._uuid]}` ({key}) addresses other data "
+                                 f"after transfer_col_references")
+                if nm[0] != nm[1]:
+                    fails.append(f"the origin's reference ({key}) is called `{nm[0]}` after the transfer, `{nm[1]}` before")
+        return fails
+
+
 def run(ctx, res):
     cases, obs, verdicts = pipeprop.run(ctx, res, "C16", PROFILE, n_quick=350, n_thorough=5000, probe_ids=())
     if ctx.replay:
+        import json
+        from pathlib import Path
+        rp = json.loads(Path(ctx.replay).read_text())
+        if rp.get("failure", {}).get("kind") == "transfer":
+            fs = transfer_oracle(rp["case"], rp["backend"])
+            if fs:
+                res.violations.append({"what": fs[0], "found_input": True,
+                                       "payload": {"case": rp["case"], "backend": rp["backend"], "failure": {"kind": "transfer"}}})
         return
     n = 120 if ctx.tier == "quick" else 1200
     bases = reroot_variants(ctx.seed, n)
     bad = 0
-    stats = {"alias": 0, "alias_keep": 0, "collect": 0, "self_join": 0, "old_ref_rejected": 0}
+    stats = {"alias": 0, "alias_keep": 0, "collect": 0, "self_join": 0, "old_ref_rejected": 0, "transfer": 0}
+    tbad = 0
     for c in bases:
         pid = c["pipe"]["id"]
         k = len(c["pipe"]["steps"])
         for b in ("polars", "sqlite"):
+            fs = transfer_oracle(c, b)
+            if fs is not None:
+                stats["transfer"] += 1
+                if fs and tbad < 2:
+                    tbad += 1
+                    res.violations.append({"what": f"{b}: {fs[0]}", "found_input": True,
+                                           "payload": {"case": c, "backend": b, "failure": {"kind": "transfer"}, "all": fs[:6]}})
             base = pipecheck.observe(c, b)
             if base.exc or base.export_exc or base.names is None:
                 continue
